@@ -274,7 +274,7 @@ def check_limit_adapter(res, facts, trait, head, tname, inner_rem, chunk_m, adv_
     known = {inner_rem, chunk_m, adv_m, "chunks_vectored", has_m} | set(extra)
     NON_CONSUMING = {"remaining", "chunk", "has_remaining", "chunks_vectored", "remaining_mut", "chunk_mut", "has_remaining_mut"}
     AMOUNT = {"advance": ("arg", 1), "advance_mut": ("arg", 1), "copy_to_bytes": ("arg", 1), "put_bytes": ("arg", 2),
-              "put_slice": ("len", 1), "copy_to_slice": ("len", 1)}
+              "put_slice": ("len", 1), "copy_to_slice": ("len", 1), "try_copy_to_slice": ("len", 1)}
     for im in facts.impls:
         if im.get("trait") != trait or im["self_ty"].split("<", 1)[0] != head.split("<", 1)[0]:
             continue
@@ -318,6 +318,18 @@ def check_limit_adapter(res, facts, trait, head, tname, inner_rem, chunk_m, adv_
                     wb = okw[0][0]
                     for path in enumerate_paths(b):
                         if (bi in path) != (wb in path):
+                            if m.startswith("try_") and bi in path:
+                                # the fallible inner call refused (`?` / the Err arm): by its contract nothing was consumed, so nothing is charged
+                                from .flow import path_relations as _pr
+                                refused = False
+                                for r_ in _pr(b, facts, path):
+                                    if r_ and r_[0] in ("truth", "notin", "eq") and isinstance(r_[1], tuple) and r_[1] and r_[1][0] == "discr" \
+                                            and any(isinstance(y, tuple) and y and y[0] in ("call", "ucall") and str(y[1]).rsplit("::", 1)[-1] == m for y in walk(r_[1])):
+                                        v_ = r_[2]
+                                        if (r_[0] == "truth" and v_ == 1) or (r_[0] == "notin" and 0 in tuple(v_)) or (r_[0] == "eq" and canon(v_) == ("const", 1)):
+                                            refused = True
+                                if refused:
+                                    continue
                             probs.append("a returning path has inner.%s without the limit decrement (or vice versa)" % m)
                             break
                 return probs
